@@ -376,4 +376,39 @@ theorem meaning_core (fuel : Nat) :
     obtain ⟨ihV, ihM, ihE⟩ := ih
     exact ⟨value_meaning_step fp n ihM ihE, members_meaning_step fp n ihV ihM, elems_meaning_step fp n ihV ihE⟩
 
+theorem toGoMembers_names (ms : List (Bytes × MTree)) (gms : List (Bytes × GoAny F))
+    (h : toGoMembers fp ms = some gms) : gms.map (·.1) = names ms := by
+  induction ms generalizing gms with
+  | nil => simp [toGoMembers] at h; subst h; rfl
+  | cons e ms ih =>
+    obtain ⟨k, x⟩ := e
+    simp only [toGoMembers] at h
+    cases hx : toGo fp x with
+    | none => simp [hx] at h
+    | some v =>
+      simp only [hx] at h
+      cases hm : toGoMembers fp ms with
+      | none => simp [hm] at h
+      | some gms' =>
+        simp only [hm, Option.map_some, Option.some.injEq] at h
+        subst h
+        simp [names, ih gms' hm]
+
+theorem toGoList_map (xs : List MTree) (gxs : List (GoAny F)) (h : toGoList fp xs = some gxs) :
+    xs.map (toGo fp) = gxs.map some := by
+  induction xs generalizing gxs with
+  | nil => simp [toGoList] at h; subst h; rfl
+  | cons x xs ih =>
+    simp only [toGoList] at h
+    cases hx : toGo fp x with
+    | none => simp [hx] at h
+    | some v =>
+      simp only [hx] at h
+      cases hm : toGoList fp xs with
+      | none => simp [hm] at h
+      | some gxs' =>
+        simp only [hm, Option.map_some, Option.some.injEq] at h
+        subst h
+        simp [hx, ih gxs' hm]
+
 end JsonV.Lemmas.MeaningSpec
